@@ -12,6 +12,7 @@ from typing import Any, Callable, Iterable, Optional
 
 ROOT = os.path.dirname(os.path.dirname(os.path.abspath(__file__)))
 KNOWN_FILE = os.path.join(ROOT, 'known_findings.json')
+OUT_ROOT = os.environ.get('VERIF_OUT') or ROOT     # where evidence/ and replays/ are written (default: /verif)
 MAX_SAMPLES = 4
 
 
@@ -298,7 +299,7 @@ def run_cases(rec: Recorder, engine: str, specs: Iterable[Any], check: Callable[
 # ------------------------------------------------------------------------------------------------
 
 def write_replay(prop: str, violation: dict) -> str:
-    d = os.path.join(ROOT, 'replays', prop)
+    d = os.path.join(OUT_ROOT, 'replays', prop)
     os.makedirs(d, exist_ok=True)
     h = case_hash([violation['engine'], violation['signature'], violation['case']])
     path = os.path.join(d, f'{h}.json')
